@@ -1,33 +1,43 @@
 """C09 — symbol tables round-trip; lookup by name or value agrees with a linear scan; hash functions
 equal their ABI definitions.
 
-Proved (lean/ElfioVerif/Props/C09.lean, about Model/Symbols.lean whose guards, offsets, truncations,
-`ELF_ST_*` uses and hash-walk index computations are the generated expressions of Gen/SitesC09.lean and
-whose record members are read/written through the generated layout of Gen/Layout.lean):
+Proved (lean/ElfioVerif/Props/C09.lean + Lemmas/Symbols.lean, about Model/Symbols.lean whose guards,
+offsets, truncations, `ELF_ST_*` uses and hash-walk index computations are the generated expressions of
+Gen/SitesC09.lean and whose record members go through the generated layout and byte swap):
   elf_hash_eq / gnu_hash_eq     Gen.elf_hash = Spec.sysvHash, Gen.elf_gnu_hash = Spec.gnuHash for ALL byte
-                                strings (+ arithmetic forms sysvStep_nat, gnuHash_nat)
-  sym_bytes                     after ANY sequence of named adds on a fresh table the symbol section is
-                                exactly Spec.encodeTable (null :: records) and the string section is the
-                                NUL-led concatenation of the names (gABI layout, byte order, ELF_ST_INFO)
-  sym_roundtrip                 ... and get_symbol(k+1) returns the k-th symbol's name and attributes with
-                                value/size truncated to the class width; get_symbol(0) is the null symbol;
-                                add returns k+1; get_symbols_num = count+1
-  getSymbol_decoded / readout_content_only
-                                on any well-formed table the by-index read-out is the gABI decoding of the
-                                section contents, i.e. a function of contents + header fields only (this
-                                is what carries the statements across save + reload)
-  lookup_name                   by-name lookup succeeds iff the name is present; with unique names it
-                                returns the linear scan's attributes - for ANY accompanying SysV/GNU hash
-                                section whose walk does not fault (uses only soundness of the walks and
-                                the unconditional fallback)
-  lookup_value                  by-value lookup returns the first symbol with that (class-width) value
-Only covered by correspondence + oracle (not by a theorem): that `save` writes the section contents
-unchanged and `load` reads them back (C03/C05's loader/writer model; here: harness saves, reloads,
-re-queries, and the saved bytes are decoded independently by the oracle); completeness of the hash
-walks on ABI-built tables (not needed for the property: the fallback makes lookups complete);
-non-faulting of the walks on ABI-built tables (every case here runs them under ASan, memory safety on
-arbitrary tables is C18).
-Assumed: see ASSUMPTIONS.
+                                strings (+ arithmetic readings sysvStep_nat, gnuHash_nat); st_info_spec
+  sym_bytes                     after ANY sequence of named adds on a new table: every add returned the next
+                                index, the symbol section is exactly Spec.encodeTable (null :: records) (gABI
+                                layout per class, byte order, ELF_ST_INFO), the string section is the NUL-led
+                                concatenation of the names
+  sym_roundtrip                 get_symbols_num = adds+1, index 0 = null symbol, index k+1 = k-th symbol's name
+                                and attributes with value/size truncated to the class width, larger indices
+                                refused with the out-parameters untouched
+  getSymbol_decoded / readout_content_only / wf_loaded / sym_roundtrip_reloaded
+                                on any well-formed table the read-out is the gABI decoding of the section
+                                contents, hence a function of contents + header fields only; the table a load
+                                yields from the same bytes (eager or lazy) answers every query identically
+  lookup_value                  by-value lookup = first entry with that (class-width) value, any hash section
+  lookup_name                   by-name lookup succeeds iff the name is present, with the attributes of an entry
+                                of that name, = the linear scan for unique names - for ANY accompanying hash
+                                section whose walk returns (soundness of the walks + unconditional fallback)
+  hashLookup_total / gnuLookup_total / lookup_name_wellformed
+                                over a well-formed SysV / GNU table (decidable SysvWf / GnuWf) the walks neither
+                                fault nor loop, so the lookup returns and the above applies
+  buildSysv_wf / buildGnu_wf / abi_hash_walk_safe
+                                tables built by the ABI constructions (Spec.buildSysv / buildGnu, any bucket
+                                count >= 1, any hash values) are well-formed
+  validNames_built              built tables have valid name offsets
+Ties between the layers: Gen/* regenerated from the source on every run; correspondence harness vs driver on
+every case; the driver recomputes every attached hash table with Spec.buildSysv / Spec.buildGnu from the
+current names and flags any difference from the generator's (Python, independent) ABI construction; the
+oracle checks SysvWf/GnuWf on every attached table with its own reading of the predicate.
+Only covered by correspondence + oracle (not by a theorem): that `save` writes the section contents unchanged
+and `load` reads them back (C03/C05's loader/writer model; the harness saves, reloads, re-queries, and the saved
+symbol table bytes are decoded per gABI by the oracle); completeness of the hash walks (not needed for the
+property: the fallback makes lookups complete; exercised directly through `hlookup`); tables with a
+non-standard entry size; memory safety of the walks on malformed tables is C18.
+Finding fixed: fixes/09-hash-lookup-empty-name.patch (see known_findings.json).
 """
 import itertools, struct
 
@@ -39,7 +49,10 @@ THEOREMS = ["ElfioVerif.C09.elf_hash_eq", "ElfioVerif.C09.gnu_hash_eq", "ElfioVe
             "ElfioVerif.C09.sym_bytes", "ElfioVerif.C09.sym_roundtrip", "ElfioVerif.SymTab.getSymbol_decoded",
             "ElfioVerif.C09.readout_content_only", "ElfioVerif.C09.wf_loaded", "ElfioVerif.C09.sym_roundtrip_reloaded",
             "ElfioVerif.C09.lookup_value", "ElfioVerif.C09.lookup_name",
-            "ElfioVerif.SymTab.hashLookup_sound", "ElfioVerif.SymTab.gnuLookup_sound"]
+            "ElfioVerif.SymTab.hashLookup_sound", "ElfioVerif.SymTab.gnuLookup_sound",
+            "ElfioVerif.SymTab.hashLookup_total", "ElfioVerif.SymTab.gnuLookup_total",
+            "ElfioVerif.C09.lookup_name_wellformed", "ElfioVerif.SymTab.buildSysv_wf", "ElfioVerif.SymTab.buildGnu_wf",
+            "ElfioVerif.C09.abi_hash_walk_safe", "ElfioVerif.C09.validNames_built"]
 SITES = ["sym_", "sym32_", "sym64_", "sysv_", "gnu32_", "gnu64_", "str_get", "str_add", "elf_hash", "elf_gnu_hash",
          "conv16", "conv32", "conv64"]
 RULE = ("tables of 0-60 symbols (names from a 6-letter alphabet incl. duplicates and the empty name, full-width "
@@ -214,7 +227,8 @@ def table_names(syms):
 def hash_line(rng, kind, syms, cls, enc, symoffset=1):
     names = table_names(syms)
     if kind == "sysv":
-        return f"sethash type={SHT_HASH} data={hx(build_sysv(names, rng.randint(1, 17), enc))}"
+        nb = rng.randint(1, 17)
+        return f"sethash type={SHT_HASH} nb={nb} data={hx(build_sysv(names, nb, enc))}"
     return (f"sethash type={SHT_GNU_HASH} data=" +
             hx(build_gnu(names, symoffset, rng.randint(1, 17), rng.randint(1, 4), rng.randint(0, 31), cls, enc)))
 
@@ -247,7 +261,8 @@ def table_case(rng, cid, nsyms=None, kind=None, cfg=None):
         nb = rng.randint(1, 17); bs = rng.randint(1, 4); sh = rng.randint(0, 31)
         so = 1 + rng.randint(0, min(3, len(pre)))
         pre = pre[:so - 1] + sorted(pre[so - 1:], key=lambda s: abi_gnu_hash(s["name"]) % nb)
-        hl = f"sethash type={SHT_GNU_HASH} data=" + hx(build_gnu(table_names(pre), so, nb, bs, sh, cls, enc))
+        hl = (f"sethash type={SHT_GNU_HASH} nb={nb} so={so} bs={bs} sh={sh} data=" +
+              hx(build_gnu(table_names(pre), so, nb, bs, sh, cls, enc)))
     elif kind == "sysv":
         hl = hash_line(rng, "sysv", pre, cls, enc)
     syms = pre + post
@@ -337,9 +352,9 @@ def gen_cases(rng, tier):
                     lines += [add_line(s["name"], s) for s in syms]
                     names = table_names(syms)
                     if kind == "sysv":
-                        lines.append(f"sethash type={SHT_HASH} data={hx(build_sysv(names, 3, enc))}")
+                        lines.append(f"sethash type={SHT_HASH} nb=3 data={hx(build_sysv(names, 3, enc))}")
                     elif kind == "gnu":
-                        lines.append(f"sethash type={SHT_GNU_HASH} data={hx(build_gnu(names, 1, 3, 2, 5, cls, enc))}")
+                        lines.append(f"sethash type={SHT_GNU_HASH} nb=3 so=1 bs=2 sh=5 data={hx(build_gnu(names, 1, 3, 2, 5, cls, enc))}")
                     q = ["num"] + [f"get {i}" for i in range(ln + 2)]
                     for nm in (b"a", b"b", b"", b"ab", b"c"):
                         q.append(f"byname {hx(nm)}")
